@@ -49,6 +49,6 @@ Definition iqtype_error : bytes := hex "6572726f72".
 Inductive name_src := NsZero | NsStanza | NsChild. (* xml.Name{}; the stanza's own start.Name; the current child's start.Name *)
 Definition child_lookup_arg_message : name_src := NsChild.
 Definition child_lookup_arg_presence : name_src := NsChild.
-Definition wildcard_lookup_arg_message : name_src := NsStanza.
-Definition wildcard_lookup_arg_presence : name_src := NsStanza.
+Definition wildcard_lookup_arg_message : name_src := NsZero.
+Definition wildcard_lookup_arg_presence : name_src := NsZero.
 Definition bufreader_buffers_token_with_error : bool := true. (* a token that comes with an error is appended to the buffer all the same *)
